@@ -782,3 +782,75 @@ func VerifConcurrent(lines []string, queries []string, sort bool, tac bool, yiel
 	m.Stop()
 	return out
 }
+
+// VerifHistReq is one search request of a history served by the real matcher loop.
+type VerifHistReq struct {
+	Query string
+	Set   int  // which input (a reload switches to another set under a new major revision)
+	Upto  int  // number of lines of that input loaded when the request is made
+	Final bool // reading has finished
+	Sort  bool
+}
+
+// VerifMatcherHistory serves the requests one after the other through Matcher.Loop, all sharing
+// one chunk cache, one pattern cache and the loop's merger cache, and returns the item indices
+// published for each request.
+func VerifMatcherHistory(sets [][]string, reqs []VerifHistReq, tac bool) [][]int32 {
+	sortCriteria = []criterion{byScore, byLength}
+	cache := NewChunkCache()
+	eventBox := util.NewEventBox()
+	m := verifMatcher(cache, eventBox, true, tac)
+	go m.Loop()
+	lists := map[int]*ChunkList{}
+	pushed := map[int]int{}
+	rev := revision{}
+	curSet := -1
+	out := [][]int32{}
+	for _, r := range reqs {
+		if r.Set != curSet {
+			if curSet >= 0 {
+				rev.bumpMajor()
+			}
+			curSet = r.Set
+			// a reload starts a fresh list
+			var idx int32
+			lists[r.Set] = NewChunkList(cache, func(item *Item, data []byte) bool {
+				item.text = util.ToChars(data)
+				item.text.Index = idx
+				idx++
+				return true
+			})
+			pushed[r.Set] = 0
+		}
+		for pushed[r.Set] < r.Upto && pushed[r.Set] < len(sets[r.Set]) {
+			lists[r.Set].Push([]byte(sets[r.Set][pushed[r.Set]]))
+			pushed[r.Set]++
+		}
+		snapshot, _, _ := lists[r.Set].Snapshot(0)
+		m.Reset(snapshot, []rune(r.Query), true, r.Final, r.Sort, rev)
+		got := make(chan *Merger, 1)
+		go func() {
+			eventBox.Wait(func(events *util.Events) {
+				for evt, val := range *events {
+					if evt == EvtSearchFin {
+						got <- val.(*Merger)
+					}
+				}
+				events.Clear()
+			})
+		}()
+		select {
+		case mg := <-got:
+			res := []int32{}
+			for i := 0; i < mg.Length(); i++ {
+				res = append(res, mg.Get(i).item.Index())
+			}
+			out = append(out, res)
+		case <-time.After(5 * time.Second):
+			eventBox.Set(EvtQuit, nil)
+			out = append(out, []int32{-1})
+		}
+	}
+	m.Stop()
+	return out
+}
